@@ -23,7 +23,7 @@ CHECKS = {
    ref="DESIGN.md §6 C01"),
  "C02": dict(engine="enum", cat="exploration",
    technique="bounded-exhaustive enumeration of (schema set, operation) pairs; each operation is translated by the real planner and the translation is checked at the plan level and at the receiving in-memory services with the validator run against the receiver's own schema",
-   text="For every operation in the bound (all selection trees <=K fields, K<=5 on base worlds, K<=4 with one world atom, K<=3 with two, plus all single decorations) every sub-request must parse and validate against the receiving service's own schema, variables must coerce and carry the client's value or default, the plan must cover every client field coordinate, add only id/__typename and register each added helper for removal.",
+   text="For every operation in the bound (all selection trees <=K fields, K<=5 on base worlds, K<=4 with one world atom, K<=3 with two, plus all single decorations) every sub-request must parse and validate against the receiving service's own schema, variables must coerce and carry the client's value or default, the plan must cover every client field coordinate, add only id/__typename and register each added helper for removal; id and __typename are identified by response key (a helper is not the field the client selected under an alias) and a registration has to sit under an object type.",
    note="Trusted: gqlparser validator, coordinate abstraction (response path + field name), in-memory services. Data-independent.",
    ref="DESIGN.md §6 C02"),
  "C06": dict(engine="enum", cat="fault_enumeration",
@@ -43,12 +43,12 @@ CHECKS = {
    ref="DESIGN.md §6 C07"),
  "C09": dict(engine="enum", cat="fault_enumeration",
    technique="exhaustive fault enumeration: every fault kind of a 23-symbol alphabet at every (downstream call, batch position) of every operation in a bounded corpus (thorough: ordered pairs), run against the real gateway in crash-isolating workers",
-   text="For every operation with <=3 fields on 14 (quick) worlds/configurations and every single fault position: process alive, well-formed envelope, failure signals yield non-empty errors, no value appears in data that no service returned (taint), and a follow-up request on the same gateway equals its reference.",
+   text="For every operation with <=3 fields on 14 (quick) worlds/configurations and every single fault position: process alive, well-formed envelope, failure signals yield non-empty errors, no value appears in data that no service returned (taint), and a follow-up request on the same gateway equals its reference; every downstream response body is closed (an unclosed body never releases its connection).",
    note="Hang detection is delegated to Engine B; root node() operations excluded; single faults (pairs in thorough).",
    ref="DESIGN.md §6 C09"),
  "C10": dict(engine="enum", cat="exploration",
    technique="exhaustive enumeration of single invalidating mutations (19 kinds at every position) of every valid operation in the bound, plus exhaustive injection of GraphQL error payloads at every downstream call position",
-   text="Part 1: no invalid operation (by gqlparser on the merged schema, or unknown/ambiguous operation name) causes any downstream request; it is answered 200 with errors and data:null. Part 2: every downstream GraphQL error (unicode message, nested extensions, path, locations) injected at any call/position appears in the client's errors with equal message, extensions and path.",
+   text="Part 1: no invalid operation (by gqlparser on the merged schema, or unknown/ambiguous operation name) causes any downstream request; it is answered 200 with errors and data:null. Part 2: every downstream GraphQL error (unicode message, nested extensions, path, locations) injected at any call/position appears in the client's errors with equal message, extensions and path; an invalid operation is also sent as the unselected sibling of a valid one in the same document (the document is invalid as a whole: no downstream request, errors, data null).",
    note="Trusted: gqlparser validator as the definition of invalid; service request logs.",
    ref="DESIGN.md §6 C10"),
  "C19": dict(engine="enum", cat="exploration",
@@ -58,12 +58,12 @@ CHECKS = {
    ref="DESIGN.md §6 C19"),
  "C03": dict(engine="enum", cat="exploration",
    technique="bounded-exhaustive enumeration of schema sets (base + <=3 atoms from a 43-atom catalogue covering every type-system feature) x every permutation of the service list x both mergers, with the real merger called directly and its result compared fact-by-fact with the union of the inputs",
-   text="For each of ~10^5 (quick) merges: the result is a valid schema, its canonical facts (types, kinds, fields, argument names/types/defaults, enum values, union members, implements, possible types, input fields, directive definitions, root types) equal the union of the services' facts, and every <=2-field operation of each service validates against it.",
+   text="For each of ~10^5 (quick) merges: the result is a valid schema, its canonical facts (types, kinds, fields, argument names/types/defaults, enum values, union members, implements, possible types, input fields, directive definitions, root types) equal the union of the services' facts, and every <=2-field operation of each service validates against it, as do the introspection operations; the conflicting sets of C05 are run too: a merge that succeeds must not have lost or overridden a declaration.",
    note="Trusted: schemacanon as the definition of schema equality (descriptions and applied directives excluded); gqlparser's SDL loader.",
    ref="DESIGN.md §6 C03"),
  "C04": dict(engine="enum", cat="exploration",
    technique="same exhaustive schema-set enumeration as C03 with an oracle on MergeResult.TypeURLMap computed from the services' SDL",
-   text="Every root field routed to its unique declaring service, every non-id object field routed to a service that declares it, stitchable flag iff implements Node, routed URL set equals contributing services, no unrouted field - for every schema set, permutation and merger in the bound.",
+   text="Every root field routed to its unique declaring service, every non-id object field routed to a service that declares it, stitchable flag iff implements Node, routed URL set equals contributing services, no unrouted field - for every schema set, permutation and merger in the bound; also for gateways constructed through the real introspector with one service failing, and for every conflicting set of C05 that the merger accepts.",
    note="Ground truth = the services' own SDL.",
    ref="DESIGN.md §6 C04"),
  "C05": dict(engine="enum", cat="exploration",
@@ -78,7 +78,7 @@ CHECKS = {
    ref="DESIGN.md §6 C15"),
  "C16": dict(engine="enum", cat="exploration",
    technique="bounded-exhaustive enumeration of introspection operations (standard query, every selection tree <=K fields under __schema and __type(name:) for every type name, by literal and variable, decorated) over merged schemas, compared with a specification-shaped reference resolver; plus rebuild by a standard client and by a second gateway",
-   text="For every merged schema with <=1 atom and every introspection operation in the bound the HTTP answer equals gqlref.Introspect over the merger's own output (lists as sets, null/empty description identified), __type(name:X) equals the __schema.types entry X, and FromIntrospection and the gateway's own remote introspector rebuild a schemacanon-equal schema from the standard query.",
+   text="For every merged schema with <=1 atom and every introspection operation in the bound the HTTP answer equals gqlref.Introspect over the merger's own output (lists as sets, null/empty description identified), __type(name:X) equals the __schema.types entry X, and FromIntrospection and the gateway's own remote introspector rebuild a schemacanon-equal schema from the standard query; an operation passes the gateway's validation iff it is valid against the schema rebuilt from the gateway's own answer; hand-written operations select one field twice with different arguments and put two directives on one selection.",
    note="Trusted: gqlref.IntrospectResolver (2018-shaped prelude of gqlparser 2.5.1), schemacanon.",
    ref="DESIGN.md §6 C16"),
  "C08": dict(engine="sched", cat="model_checking",
@@ -93,17 +93,17 @@ CHECKS = {
    ref="DESIGN.md §6 C13"),
  "C14": dict(engine="sched", cat="model_checking",
    technique="explicit enumeration of all request histories up to a depth over a collision-built operation alphabet plus clock ticks, each replayed on a fresh caching gateway and a plain twin under a virtual clock; plus preemption-bounded exhaustive schedule exploration of two concurrent clients on one caching gateway",
-   text="All histories of length <=3 (thorough 4) over 15 operations + tick for TTL in {0,1s,1h} (12k histories quick): every answer equals the plain planner's. Concurrent: 67 client pairs x 2 TTLs, every schedule with <=1 preemption at client granularity with RWMutex operations visible: every answer equals the plain planner's; no deadlock/fatal.",
+   text="All histories of length <=3 (thorough 4) over 15 operations + tick for TTL in {0,1s,1h} (12k histories quick): every answer equals the plain planner's. Concurrent: 67 client pairs x 2 TTLs, every schedule with <=1 preemption at client granularity with RWMutex operations visible: every answer equals the plain planner's; no deadlock/fatal; 9 of the concurrent pairs let the clock jump past the TTL before the second client's request (the first request straddles the expiry).",
    note="Virtual clock (vrt); subscriptions interleaved with queries are covered in the C17/C18 harness only; data races on the shared plan are outside a cooperative scheduler's reach.",
    ref="DESIGN.md §6 C14"),
  "C17": dict(engine="sched", cat="model_checking",
    technique="stateless model checking of the implementation: preemption-bounded exhaustive DFS (state-cached) over the real subscription handler, entries and upstream reader running on scheduler-aware pipes, crossed with an exhaustive small scope of subscription operations and upstream event histories",
-   text="For 8 subscription operations (0-2 other services, lists, value types, aliases) x upstream histories of length <=3 over {event, error payload, complete} x 1-2 subscriptions per connection x plain/caching planner, every schedule with <=1 preemption: per subscription id the data payloads equal the reference evaluation of each emitted event, in order, exactly once, never under another id; upstream error payloads arrive as errors; no fatal/deadlock/leak.",
+   text="For 8 subscription operations (0-2 other services, lists, value types, aliases) x upstream histories of length <=3 over {event, error payload, complete} x 1-2 subscriptions per connection x plain/caching planner, every schedule with <=1 preemption: per subscription id the data payloads equal the reference evaluation of each emitted event, in order, exactly once, never under another id; upstream error payloads arrive as errors; no fatal/deadlock/leak; also with an error message carrying a list payload in mid-stream, 11 s of upstream silence (read deadlines are modelled), the same entity emitted again after the services' data changed, and a slow reader while the heartbeat comes due.",
    note="Virtual time; one connection; schedules beyond the bound not covered.",
    ref="DESIGN.md §6 C17"),
  "C18": dict(engine="sched", cat="model_checking",
    technique="stateless model checking of the implementation: preemption-bounded exhaustive DFS (state-cached) over all goroutines of the real teardown path (handler, heartbeat, Listen, Close, upstream closer and reader) on scheduler-aware pipes, with heartbeat firings as bounded environment moves, crossed with client/upstream action scripts",
-   text="117 (quick) / 680 (thorough) script pairs over 10 client actions and 5 upstream actions; every schedule with <=1 (thorough 2) preemption and <=1 (2) heartbeat firing inside the window opening once the subscription is established: no fatal or panic, no deadlock, handler returns, every goroutine started for the connection terminates, every upstream connection is closed, and the client's byte stream parses into complete websocket frames with complete graphql-ws messages.",
+   text="117 (quick) / 680 (thorough) script pairs over 10 client actions and 5 upstream actions; every schedule with <=1 (thorough 2) preemption and <=1 (2) heartbeat firing inside the window opening once the subscription is established: no fatal or panic, no deadlock, handler returns, every goroutine started for the connection terminates, every upstream connection is closed, and the client's byte stream parses into complete websocket frames with complete graphql-ws messages; slow-reader scenarios (bounded receive buffer, write deadlines) incl. the id of a stopped subscription used again while its listener is still busy.",
    note="Virtual time (only orderings of ticker firings); preemption bound; gobwas and encoding/json are not instrumented.",
    ref="DESIGN.md §6 C18"),
 }
